@@ -66,7 +66,11 @@ Definition fields_wf (s : schema) (i : nat) : bool :=
                      | DMsg _ _ _ fs => nodup_str (map (fun fl => dec (fl_num fl)) fs)
                      | _ => true end) (flat_file (getf s i)).
 
-Definition wf (s : schema) : bool := forallb (fun i => file_wf s i && fields_wf s i) (seq 0 (length s)).
+(* options of an accepted file pass their validators (options.py, translated into gen/GenC10.v) *)
+Definition opts_wf (s : schema) (i : nat) : bool := align_valid (o_calign (f_opts (getf s i))).
+
+Definition wf (s : schema) : bool :=
+  forallb (fun i => file_wf s i && fields_wf s i && opts_wf s i) (seq 0 (length s)).
 
 (* ---- the property's precondition ---- *)
 Definition ns_macro (L : lang) : ns := match L with LC => NsMacro | _ => NsMod end.
@@ -244,5 +248,6 @@ Definition g_go_used (s : schema) (i : nat) : bool :=
 Definition g_struct_nonempty (s : schema) (i : nat) : bool :=
   forallb (fun fd => match fd_def fd with DMsg _ _ _ [] => false | _ => true end) (flat_file (getf s i)).
 
-(* [align-nonpow2] *)
+(* gcc needs a power of two in aligned(n).  Since the fix of [align-nonpow2] this follows from
+   [wf] (EmitProofs.align_of_wf): it is no longer a guard of any theorem *)
 Definition g_align (s : schema) (i : nat) : bool := align_ok (o_calign (f_opts (getf s i))).
